@@ -2,6 +2,7 @@
 same observations as the model driver.  Only public extension points are used: `evaluator_klass`,
 `attach`, `bind`, `bind_property_statechart`, `initial_context`, `clock`."""
 import copy
+import json
 import pickle
 
 from sismic.code import PythonEvaluator
@@ -9,7 +10,8 @@ from sismic.exceptions import (CodeEvaluationError, ConflictingTransitionsError,
                                InvariantError, NonDeterminismError, PostconditionError,
                                PreconditionError, PropertyStatechartError, StatechartError)
 from sismic.interpreter import Interpreter
-from sismic.model import Event, InternalEvent, MetaEvent, Transition
+from sismic.model import (BasicState, CompoundState, Event, FinalState, InternalEvent, MetaEvent, Statechart,
+                          Transition)
 from sismic.clock import Clock, SimulatedClock
 
 from .encode import enc_event, enc_val, Unsupported
@@ -73,7 +75,7 @@ class LoggingEvaluator(PythonEvaluator):
 
     def _vp_vals(self, src):
         out = {}
-        for k in ('x', 'y', 'seen', 'last'):
+        for k in ('x', 'y', 'seen', 'last', 'bag', 'cell'):
             try:
                 v = src[k] if isinstance(src, dict) else getattr(src, k)
                 out[k] = enc_val(v)
@@ -196,8 +198,11 @@ class ImplWorld:
         self.listeners = []             # listener objects by id
         self.listener_spec = []
         self.callbacks = []
+        self.cbfuns = {}                # one callable object per recording callable (bound twice = the same object)
+        self.deliveries = None          # when a list: global order in which the recording callables were called
         self.log = Log()
         self.oldlog = []
+        self.anomalies = []         # things no property allows, noticed by the harness's own observers
         self.unsupported = False
         self.meta_loggers = {}
 
@@ -219,6 +224,16 @@ class ImplWorld:
             self.callbacks.append([])
         return self.callbacks[k]
 
+    def _cbfun(self, k):
+        lst = self._cb(k)
+        if k not in self.cbfuns:
+            def record(event):
+                lst.append(event)
+                if self.deliveries is not None:
+                    self.deliveries.append(k)
+            self.cbfuns[k] = record
+        return self.cbfuns[k]
+
     def _new_slot(self, interp):
         self.slots.append(interp)
         self.trans.append(list(interp.statechart.transitions))
@@ -228,6 +243,15 @@ class ImplWorld:
         def listener(event):
             if slot == self.top:
                 self.log.append(['meta', enc_event(event)])
+                # every parameter of a meta-event is readable as an attribute, `None` values included
+                for k, v in event.data.items():
+                    try:
+                        same = getattr(event, k) is v
+                    except AttributeError:
+                        same = False
+                    if not same:
+                        self.anomalies.append(['meta', 'attribute %r of meta-event %r is not readable (value %r)'
+                                               % (k, event.name, v)])
         listener._vp_meta_logger = True
         return listener
 
@@ -249,8 +273,14 @@ class ImplWorld:
                 'unsupported': False}
 
     def world_json(self):
-        return {'slots': [self.slot_json(i) for i in range(len(self.slots))],
-                'callbacks': [[enc_event(e) for e in cb] for cb in self.callbacks]}
+        w = {'slots': [self.slot_json(i) for i in range(len(self.slots))],
+             'callbacks': [[enc_event(e) for e in cb] for cb in self.callbacks]}
+        if self.anomalies:
+            w['anomalies'] = list(self.anomalies)
+        if self.deliveries is not None:
+            w['deliveries'] = list(self.deliveries)
+            del self.deliveries[:]
+        return w
 
     def micro_json(self, slot, m):
         return {'event': enc_event(m.event),
@@ -260,7 +290,24 @@ class ImplWorld:
                          for e in m.sent_events]}
 
     def macro_json(self, slot, ms):
-        return {'time': ms.time, 'steps': [self.micro_json(slot, m) for m in ms.steps]}
+        j = {'time': ms.time, 'steps': [self.micro_json(slot, m) for m in ms.steps]}
+        # what the accessors of the MacroStep itself say (must be the aggregation of its micro steps)
+        try:
+            agg = {'entered': list(ms.entered_states), 'exited': list(ms.exited_states),
+                   'sent': [enc_event(e) for e in ms.sent_events],
+                   'transitions': [self.tid(slot, t) for t in ms.transitions],
+                   'event': enc_event(ms.event)}
+        except Exception as e:      # noqa
+            agg = {'error': repr(e)[:200]}
+        exp = {'entered': [s for m in j['steps'] for s in m['entered']],
+               'exited': [s for m in j['steps'] for s in m['exited']],
+               'sent': [e['event'] for m in j['steps'] for e in m['sent']],
+               'transitions': [m['transition'] for m in j['steps'] if m['transition'] is not None],
+               'event': next((m['event'] for m in j['steps'] if m['event'] is not None), None)}
+        if agg != exp:
+            self.anomalies.append(['macro', 'MacroStep accessors disagree with its micro steps: %s vs %s'
+                                   % (json.dumps(agg)[:300], json.dumps(exp)[:300])])
+        return j
 
     # ---- ops
     def op(self, op):
@@ -390,19 +437,18 @@ class ImplWorld:
         return self._add_listener(i, ('bind', j), l)
 
     def op_bindcb(self, i, k):
-        cb = self._cb(k)
-        l = self.slots[i].bind(cb.append)
+        l = self.slots[i].bind(self._cbfun(k))
         return self._add_listener(i, ('bindcb', k), l)
 
     def op_binddet(self, i, k, lid):
         """bind a recording callable that, on the first event it receives, detaches listener `lid` of the same
         interpreter (bound after it) — from inside the notification"""
-        cb = self._cb(k)
+        cb = self._cbfun(k)
         world = self
         fired = []
 
         def f(event):
-            cb.append(event)
+            cb(event)
             if not fired:
                 fired.append(1)
                 world.slots[i].detach(world.listeners[lid])
@@ -430,6 +476,24 @@ class ImplWorld:
         self._new_slot(prop)
         lid = self._add_listener(i, ('property', j), l)
         return {'id': lid, 'slot': j, 'ok': True}
+
+    def op_bindwatch(self, i, state, d):
+        """bind (plainly, as a client would) a property statechart whose verdict depends on time: it fails when
+        `state` stays active for `d` time units or more"""
+        sc = Statechart('watch')
+        sc.add_state(CompoundState('root', initial='waiting'), None)
+        sc.add_state(BasicState('waiting'), 'root')
+        sc.add_state(BasicState('watching'), 'root')
+        sc.add_state(FinalState('failure'), 'root')
+        sc.add_transition(Transition('waiting', 'watching', event='state entered', guard='event.state == %r' % state))
+        sc.add_transition(Transition('watching', 'waiting', event='state exited', guard='event.state == %r' % state))
+        sc.add_transition(Transition('watching', 'failure', guard='after(%d)' % d))
+        # (the harness's own listener stays the last one, where `snapshot` puts it too)
+        own = self.meta_loggers[i]
+        self.slots[i].detach(own)
+        self.slots[i].bind_property_statechart(sc)
+        self.slots[i].attach(own)
+        return None
 
     def op_detach(self, i, lid):
         self.slots[i].detach(self.listeners[lid])
@@ -470,6 +534,8 @@ def run_case(case, charts, clock_mover=False):
     """charts: list of Statechart objects matching case['charts'].  Returns {'obs': [...]}"""
     w = ImplWorld(charts, clock_mover=clock_mover)
     w.record_old = bool(case.get('record_old'))
+    if case.get('record_deliveries'):
+        w.deliveries = []
     obs = []
     for op in case['ops']:
         obs.append(w.op(op))
